@@ -109,17 +109,19 @@ def findSlashFrom (s : List Nat) (i : Nat) : Option Nat := (findSlash (s.drop i)
 inductive NameSplit | whole | split (p : Nat) | tooLong
   deriving DecidableEq, Repr
 
-/-- The name / prefix split of `__archive_write_format_header_ustar`:
-`p = strchr(pp + copy_length - USTAR_name_size - 1, '/')`, next '/' if that is the
-first character, then the three refusals. -/
+/-- The candidate separator of `__archive_write_format_header_ustar`:
+`p = strchr(pp + copy_length - USTAR_name_size - 1, '/')`, and the next '/' if that is the
+first character of the name (ustar does not permit an empty prefix). -/
+def ustarSep (pp : List Nat) : Option Nat :=
+  match findSlashFrom pp (pp.length - ustar_name_size - 1) with
+  | some 0 => findSlashFrom pp 1
+  | x => x
+
+/-- The name / prefix split of `__archive_write_format_header_ustar` with its three refusals. -/
 def ustarSplit (pp : List Nat) : NameSplit :=
   if pp.length ≤ ustar_name_size then .whole
   else
-    let p0 := findSlashFrom pp (pp.length - ustar_name_size - 1)
-    let p := match p0 with
-      | some 0 => findSlashFrom pp 1
-      | x => x
-    match p with
+    match ustarSep pp with
     | none => .tooLong                                   -- no separator
     | some p =>
       if p + 1 = pp.length then .tooLong                 -- only a final '/'
@@ -439,55 +441,70 @@ def tarChecksumOk (h : List Nat) : Bool :=
   let s : Int := (blank.map fun (c : Nat) => if c ≥ 128 then (c : Int) - 256 else (c : Int)).foldl (· + ·) 0
   sum32 == u || sum32 == s
 
-/-- `header_common` + `header_ustar` (no pax/GNU overrides in effect): fields of one 512-byte
-header.  Returns `none` for the FATAL outcomes (negative or absurd size). -/
+/-- A numeric header field: `tar_atol(header->x, sizeof(header->x))`. -/
+def tarNum (h : List Nat) (off n : Nat) : Int := tarAtol (slice h off n)
+/-- A string header field copied with `archive_strncpy` / `archive_entry_copy_*_l(…, sizeof field)`. -/
+def tarStr (h : List Nat) (off n : Nat) : List Nat := cstr (slice h off n)
+
+/-- Pathname of `header_ustar` (prefix joined to name with a '/', unless the prefix already ends
+in one) or of `header_old_tar` (name only). -/
+def tarPath (h : List Nat) (oldTar : Bool) : List Nat :=
+  let name := tarStr h rd_name_offset rd_name_size
+  let prefix_ := tarStr h rd_prefix_offset rd_prefix_size
+  if oldTar then name
+  else if prefix_ ≠ [] then
+    (if prefix_.getLast? ≠ some slash then prefix_ ++ [slash] else prefix_) ++ name
+  else name
+
+/-- The numeric fields `header_common` parses for every entry. -/
+def tarBase (h : List Nat) (path : List Nat) (size : Int) : RB :=
+  let modeN := ((tarNum h rd_mode_offset rd_mode_size) % 4294967296).toNat        -- `(mode_t)`
+  { path := path
+    ftype := modeN % 65536 / 4096 * 4096        -- `AE_IFMT & mode`
+    perm := modeN % 4096 + (modeN / 65536) * 65536
+    uid := tarNum h rd_uid_offset rd_uid_size
+    gid := tarNum h rd_gid_offset rd_gid_size
+    mtime := some (tarNum h rd_mtime_offset rd_mtime_size)
+    size := some size }
+
+/-- The `switch (tar->filetype)` of `header_common`: file type, link target, whether a body
+follows (`entry_bytes_remaining`).  `none`: the hard-link size heuristics, not modelled. -/
+def tarTypeSwitch (rb : RB) (tf : Nat) (link : List Nat) (size : Int) : Option (RB × Nat) :=
+  if tf = 49 then            -- '1' hard link
+    if size = 0 then some ({ rb with hard := link }, 0) else none
+  else if tf = 50 then some ({ rb with sym := link, ftype := AE_IFLNK, size := some 0 }, 0)
+  else if tf = 51 then some ({ rb with ftype := AE_IFCHR, size := some 0 }, 0)
+  else if tf = 52 then some ({ rb with ftype := AE_IFBLK, size := some 0 }, 0)
+  else if tf = 53 then some ({ rb with ftype := AE_IFDIR, size := some 0 }, 0)
+  else if tf = 54 then some ({ rb with ftype := AE_IFIFO, size := some 0 }, 0)
+  else some ({ rb with ftype := AE_IFREG }, size.toNat)
+
+/-- The POSIX fields `header_ustar` adds: uname, gname and, for devices, rdev. -/
+def ustarExtras (rb : RB) (h : List Nat) (tf : Nat) : RB :=
+  let rb := { rb with uname := tarStr h rd_uname_offset rd_uname_size,
+                      gname := tarStr h rd_gname_offset rd_gname_size }
+  if tf = 51 ∨ tf = 52 then
+    { rb with rdevmajor := tarNum h rd_rdevmajor_offset rd_rdevmajor_size,
+              rdevminor := tarNum h rd_rdevminor_offset rd_rdevminor_size }
+  else rb
+
+/-- `archive_read_format_tar_read_header`: a "regular" entry whose name ends in '/' is a
+directory and has no body. -/
+def tarDirFix (r : RB × Nat) : RB × Nat :=
+  if r.1.ftype = AE_IFREG ∧ r.1.path.getLast? = some slash then ({ r.1 with ftype := AE_IFDIR }, 0) else r
+
+/-- `header_common` + `header_ustar` / `header_old_tar` (no pax/GNU overrides in effect): the
+fields of one 512-byte header and the number of body bytes that follow.  `none` for the FATAL
+outcomes (negative or absurd size). -/
 def ustarDecode (h : List Nat) (oldTar : Bool) : Option (RB × Nat) :=
-  let name := cstr (slice h rd_name_offset rd_name_size)
-  let prefix_ := cstr (slice h rd_prefix_offset rd_prefix_size)
-  let path :=
-    if oldTar then name
-    else if (slice h rd_prefix_offset 1) ≠ [0] ∧ prefix_ ≠ [] then
-      (if prefix_.getLast? ≠ some slash then prefix_ ++ [slash] else prefix_) ++ name
-    else name
-  let mode := tarAtol (slice h rd_mode_offset rd_mode_size)
-  let modeN := (mode % 4294967296).toNat        -- `(mode_t)`
-  let size := tarAtol (slice h rd_size_offset rd_size_size)
+  let size := tarNum h rd_size_offset rd_size_size
   if size < 0 ∨ size > rd_entry_limit then none else
   let tf := (slice h rd_typeflag_offset 1).headD 0
-  let link := cstr (slice h rd_linkname_offset rd_linkname_size)
-  let rb : RB := {
-    path := path
-    ftype := modeN % 65536 / 4096 * 4096 % 61441   -- AE_IFMT & mode
-    perm := modeN % 4096 + (modeN / 65536) * 65536
-    uid := tarAtol (slice h rd_uid_offset rd_uid_size)
-    gid := tarAtol (slice h rd_gid_offset rd_gid_size)
-    mtime := some (tarAtol (slice h rd_mtime_offset rd_mtime_size))
-    size := some size }
-  let remaining := size.toNat
-  -- the typeflag switch
-  let r : Option (RB × Nat) :=
-    if tf = 49 then            -- '1' hard link
-      if size = 0 then some ({ rb with hard := link }, 0) else none   -- size heuristics: not modelled
-    else if tf = 50 then some ({ rb with sym := link, ftype := AE_IFLNK, size := some 0 }, 0)
-    else if tf = 51 then some ({ rb with ftype := AE_IFCHR, size := some 0 }, 0)
-    else if tf = 52 then some ({ rb with ftype := AE_IFBLK, size := some 0 }, 0)
-    else if tf = 53 then some ({ rb with ftype := AE_IFDIR, size := some 0 }, 0)
-    else if tf = 54 then some ({ rb with ftype := AE_IFIFO, size := some 0 }, 0)
-    else some ({ rb with ftype := AE_IFREG }, remaining)
-  match r with
+  let link := tarStr h rd_linkname_offset rd_linkname_size
+  match tarTypeSwitch (tarBase h (tarPath h oldTar) size) tf link size with
   | none => none
   | some (rb, remaining) =>
-    let rb := if oldTar then rb else
-      let rb := { rb with uname := cstr (slice h rd_uname_offset rd_uname_size),
-                          gname := cstr (slice h rd_gname_offset rd_gname_size) }
-      if tf = 51 ∨ tf = 52 then
-        { rb with rdevmajor := (tarAtol (slice h rd_rdevmajor_offset rd_rdevmajor_size)),
-                  rdevminor := (tarAtol (slice h rd_rdevminor_offset rd_rdevminor_size)) }
-      else rb
-    -- archive_read_format_tar_read_header: a "regular" entry with a trailing '/' is a directory
-    if rb.ftype = AE_IFREG ∧ rb.path.getLast? = some slash then
-      some ({ rb with ftype := AE_IFDIR }, 0)
-    else some (rb, remaining)
+    some (tarDirFix (if oldTar then rb else ustarExtras rb h tf, remaining))
 
 /-- Result of reading a whole archive. -/
 structure ReadResult where
